@@ -175,7 +175,19 @@ def one_case(ctx, case):
             p = np.abs(impl) ** 2
             Z = float(st.normalization(space_t))
             ctx.oracle("rotated probs sum to Z (psi)", abs(p.sum() - Z) <= 1e-8 * Z, case, sig="probs-sum/psi", theorem="C04_psi_probs_sum")
-        if ctx.driver is not None:
+            # history: new parameters written in place, SAME state / space / batch objects -> results must follow the new psi
+            qc.set_rbm(st.rbm_am, qc.rand_rbm_params(rng, n, 2, 0.9), inplace=True)
+            if hasattr(st, "rbm_ph"):
+                qc.set_rbm(st.rbm_ph, qc.rand_rbm_params(rng, n, 2, 0.9), inplace=True)
+            psi2 = from_pair_tensor(st.psi(space_t))
+            again = from_pair_tensor(unitaries.rotate_psi(st, basis, space_t, unitaries=td, psi=None))
+            bt = torch.tensor(states, dtype=torch.double)
+            ip2 = from_pair_tensor(unitaries.rotate_psi_inner_prod(st, basis, bt, unitaries=td, psi=None))
+            sc2 = float(np.max(np.abs(K @ psi2))) + 1e-300
+            ctx.oracle("rotate_psi / inner_prod follow the CURRENT parameters on a repeated call with the same objects",
+                       bool(np.allclose(again, K @ psi2, rtol=1e-9, atol=1e-9 * sc2) and np.allclose(ip2, (K @ psi2)[batch], rtol=1e-9, atol=1e-9 * sc2)),
+                       case, sig=f"history/{kind}", theorem=TH["rotate_psi"])
+        if ctx.driver is not None and not (case.get("big") and n > 9):
             m = ctx.driver.call("c04.rotate_psi" + sfx, n=n, us=us_enc, psi=[cenc(z, exact) for z in psi])
             mv = np.array([cdec(p, exact) for p in m])
             ctx.point("rotate_psi", "property", np.r_[impl.real, impl.imag], np.r_[mv.real, mv.imag], case, scale=scale,
@@ -227,9 +239,20 @@ def one_case(ctx, case):
         if kind == "rho_model":
             Z = float(st.normalization(space_t))
             full = unitaries.rotate_rho_probs(st, basis, space_t, unitaries=td).detach().numpy()
+            # history (see psi_model)
+            qc.set_prbm(st.rbm_am, qc.rand_prbm_params(rng, n, 2, 2, 0.8), inplace=True)
+            qc.set_prbm(st.rbm_ph, qc.rand_prbm_params(rng, n, 2, 2, 0.8, d_zero=True), inplace=True)
+            rho2 = from_pair_tensor(st.rho(space_t, space_t))
+            d2 = K @ rho2 @ K.conj().T
+            rr2 = from_pair_tensor(unitaries.rotate_rho(st, basis, space_t, unitaries=td))
+            pr2 = unitaries.rotate_rho_probs(st, basis, space_t, unitaries=td).detach().numpy()
+            sc2 = float(np.max(np.abs(d2))) + 1e-300
+            ctx.oracle("rotate_rho / rho_probs follow the CURRENT parameters on a repeated call with the same objects",
+                       bool(np.allclose(rr2, d2, rtol=1e-9, atol=1e-8 * sc2) and np.allclose(pr2, np.real(np.diag(d2)), rtol=1e-9, atol=1e-8 * sc2)),
+                       case, sig=f"history/{kind}", theorem=TH["rotate_rho"])
             ctx.oracle("rotated probs >= 0 and sum to Z (rho)", bool(np.all(full >= -1e-9 * Z) and abs(full.sum() - Z) <= 1e-8 * Z), case,
                        detail={"probs": full.tolist(), "Z": Z}, sig="probs-physical/rho", theorem="C04_rho_probs_nonneg, C04_rho_probs_sum")
-        if ctx.driver is not None:
+        if ctx.driver is not None and not case.get("big"):
             rho_enc = [[cenc(z, exact) for z in row] for row in rho]
             if n <= 3 or ctx.tier == "thorough":
                 m = ctx.driver.call("c04.rotate_rho" + sfx, n=n, us=us_enc, rho=rho_enc)
@@ -290,6 +313,11 @@ def gen_cases(ctx, thorough):
                 yield {"n": n, "basis": basis, "exact": True, "kind": kind, "seed": ctx.rng.randrange(1 << 30)}
                 if not set(basis) <= set("XYZ"):
                     yield {"n": n, "basis": basis, "exact": False, "kind": kind, "seed": ctx.rng.randrange(1 << 30)}
+    # explicit operands on larger systems (index conversion beyond 8 bits); the driver is only used for the vector paths
+    for n in ((9,) if not thorough else (9, 10, 11)):
+        basis = "".join(ctx.rng.choice("XYZ") for _ in range(n - 3)) + ctx.rng.choice(["XZY", "YZZ", "ZXY"])
+        yield {"n": n, "basis": basis[::-1] if ctx.rng.random() < 0.5 else basis, "exact": False, "kind": "psi_explicit", "seed": ctx.rng.randrange(1 << 30), "big": True}
+    yield {"n": 9, "basis": "YZZZZZZXZ", "exact": False, "kind": "rho_herm", "seed": ctx.rng.randrange(1 << 30), "big": True}
     # sampled beyond
     for n in ((4, 5) if not thorough else (5,)):
         for _ in range(3):
